@@ -66,7 +66,9 @@ func (p *c13policy) AddHost(h *gocql.HostInfo) {
 		}
 	}
 	p.hosts = append(p.hosts, h)
-	sort.Slice(p.hosts, func(i, j int) bool { return p.hosts[i].ConnectAddress().String() < p.hosts[j].ConnectAddress().String() })
+	sort.Slice(p.hosts, func(i, j int) bool {
+		return p.hosts[i].ConnectAddress().String() < p.hosts[j].ConnectAddress().String()
+	})
 }
 func (p *c13policy) RemoveHost(h *gocql.HostInfo) {
 	p.mu.Lock()
@@ -110,7 +112,7 @@ type c13retry struct {
 	table    map[string]gocql.RetryType // seeded decision table (inner == nil)
 	max      int
 	mu       sync.Mutex
-	attempts []int    // q.Attempts() seen by Attempt, and its answer
+	attempts []int // q.Attempts() seen by Attempt, and its answer
 	allowed  []bool
 	kinds    []string // error kind seen by GetRetryType
 	types    []gocql.RetryType
@@ -185,12 +187,12 @@ type c13arrival struct {
 }
 
 type c13nodeState struct {
-	mu       sync.Mutex
-	script   map[string][]string // token -> outcomes in order of global arrival
-	arrivals map[string][]*c13arrival
-	seq      int64
-	cancelAt map[string]int // token -> cancel the context at this arrival index (0-based), -1 none
-	cancels  map[string]context.CancelFunc
+	mu        sync.Mutex
+	script    map[string][]string // token -> outcomes in order of global arrival
+	arrivals  map[string][]*c13arrival
+	seq       int64
+	cancelAt  map[string]int // token -> cancel the context at this arrival index (0-based), -1 none
+	cancels   map[string]context.CancelFunc
 	cancelSeq map[string]int64
 }
 
@@ -644,5 +646,9 @@ func (o *c13observer) add(h *gocql.HostInfo, err error, n int) {
 	o.mu.Unlock()
 }
 
-func (o *c13observer) ObserveQuery(ctx context.Context, q gocql.ObservedQuery) { o.add(q.Host, q.Err, q.Attempt) }
-func (o *c13observer) ObserveBatch(ctx context.Context, b gocql.ObservedBatch) { o.add(b.Host, b.Err, b.Attempt) }
+func (o *c13observer) ObserveQuery(ctx context.Context, q gocql.ObservedQuery) {
+	o.add(q.Host, q.Err, q.Attempt)
+}
+func (o *c13observer) ObserveBatch(ctx context.Context, b gocql.ObservedBatch) {
+	o.add(b.Host, b.Err, b.Attempt)
+}
